@@ -4,6 +4,7 @@ package gen
 
 import (
 	"fmt"
+	"strings"
 
 	"verif/ref"
 )
@@ -271,6 +272,65 @@ func NameModels() []Tagged {
 	return out
 }
 
+// twinNames coincide pairwise under some equivalence a sloppy comparator might use: case folding, natural number order, a
+// common stem followed by a separator character, length before content, a leading underscore.
+var twinNames = []string{"viewer", "Viewer", "r10", "VIEWER", "a-b", "vieweR", "a", "a.b", "r2", "a_b", "ab", "a/b", "a1", "Z", "r1", "b", "aa", "_x", "z", "B"}
+
+func plainIdent(n string) bool { return !strings.ContainsAny(n, "./") }
+
+// TwinModels: the twin names side by side as relations of one type, as types, as conditions, as parameters of one condition
+// (declared in the scrambled order above), and as items of a modular model tied on (module, file).
+func TwinModels() []Tagged {
+	var out []Tagged
+	doc := ref.TypeDef{Name: "doc"}
+	for _, n := range twinNames {
+		doc.Rels = append(doc.Rels, ref.Relation{Name: n, Rw: ref.T(), Restr: dUser})
+	}
+	out = append(out, Tagged{"twins:relations", &ref.Model{Schema: "1.1", Types: baseTypes(doc)}})
+	mt := &ref.Model{Schema: "1.1", Types: baseTypes()}
+	for _, n := range twinNames {
+		mt.Types = append(mt.Types, ref.TypeDef{Name: n, Rels: []ref.Relation{{Name: "r", Rw: ref.T(), Restr: dUser}}})
+	}
+	out = append(out, Tagged{"twins:types", mt})
+	mc := &ref.Model{Schema: "1.1", Types: baseTypes()}
+	one := ref.Condition{Name: "c", Expr: "a == a"}
+	for _, n := range twinNames {
+		if plainIdent(n) {
+			mc.Conds = append(mc.Conds, ref.Condition{Name: n, Params: []ref.Param{{Name: "x", Type: "int"}}, Expr: "x < 100"})
+			one.Params = append(one.Params, ref.Param{Name: n, Type: "string"})
+		}
+	}
+	out = append(out, Tagged{"twins:conditions", mc})
+	out = append(out, Tagged{"twins:parameters", &ref.Model{Schema: "1.1", Types: baseTypes(), Conds: []ref.Condition{one}}})
+	return out
+}
+
+// TwinModular: the twin names as items of a modular model - everything tied on (module, file), and spread over two origins
+// whose names are twins themselves.
+func TwinModular() []Tagged {
+	var out []Tagged
+	for _, spread := range []bool{false, true} {
+		mm := &ref.Model{Schema: "1.2", Types: []ref.TypeDef{{Name: "user", Module: "m", File: "f.fga"}}}
+		md := ref.TypeDef{Name: "doc", Module: "m", File: "f.fga"}
+		for i, n := range twinNames {
+			mod, file := "m", "f.fga"
+			if spread && i%2 == 1 {
+				mod, file = "M", "F.fga"
+			}
+			md.Rels = append(md.Rels, ref.Relation{Name: n, Rw: ref.T(), Restr: dUser, Module: mod, File: file})
+			if n != "user" && n != "doc" {
+				mm.Types = append(mm.Types, ref.TypeDef{Name: "t" + n, Module: mod, File: file})
+			}
+			if plainIdent(n) {
+				mm.Conds = append(mm.Conds, ref.Condition{Name: n, Module: mod, File: file, Params: []ref.Param{{Name: "x", Type: "int"}}, Expr: "x < 100"})
+			}
+		}
+		mm.Types = append(mm.Types, md)
+		out = append(out, Tagged{fmt.Sprintf("twins:modular:spread=%v", spread), mm})
+	}
+	return out
+}
+
 // RestrAlphabet is the restriction alphabet (condition "c" is declared by the
 // models that use it).
 var RestrAlphabet = []ref.Restriction{
@@ -417,6 +477,7 @@ func DSLModels(thorough bool) []Tagged {
 		out = append(out, RestrModels(2)...)
 	}
 	out = append(out, NameModels()...)
+	out = append(out, TwinModels()...)
 	out = append(out, CondModels()...)
 	out = append(out, MultiModels()...)
 	out = append(out, ModuleModels()...)
